@@ -31,7 +31,7 @@ for f in sorted(glob.glob(RES + "/C*_*.json")):
     files = sorted(set(re.findall(r"^\+\+\+ b/(\S+)", open(os.path.join(src, "patch.diff")).read(), re.M)))
     caught = r.get("check_exit") == 1
     meta = {
-        "id": sid, "property": r["property"], "round": (2 if "_r2_" in sid else 3 if "_r3_" in sid else 4 if "_r4_" in sid else 1), "files_changed": files,
+        "id": sid, "property": r["property"], "round": (2 if "_r2_" in sid else 3 if "_r3_" in sid else 4 if "_r4_" in sid else 6 if "_r6_" in sid else 1), "files_changed": files,
         "applies_to_repo_commit": BASE,
         "confirmed": confirmed,
         "what_i_ran": {"demo on unchanged /repo": f"exit {r.get('demo_unpatched_exit')}", "demo with patch applied to /repo": f"exit {r.get('demo_patched_exit')}",
